@@ -229,7 +229,7 @@ def parse_cli(out):
     tables = {}
     cur = None
     for line in out.splitlines():
-        if re.match(r"^(qubit(\[\])? \S+|\w+\.\w+)$", line.strip()) and "|" not in line:
+        if re.match(r"^(qubit(\[\])? \S+|[\w<>,\[\] ]+\.\w+)$", line.strip()) and "|" not in line:
             cur = line.strip(); tables[cur] = []
         elif cur and re.match(r"^\S+\s*\|\s*\d+\s*\|\s*[\d.]+$", line.strip()):
             o, c, pr = [x.strip() for x in line.split("|")]
@@ -259,6 +259,15 @@ def cli_corpus():
          "class B { @tracked public qubit q; public constructor() -> B { } }\nclass D extends B { public D me = null; public constructor() -> D { super(); this.me = this; } }\n"
          "function main() -> void { D a = new D(); x(a.q); measure a.q; a = null; for (int k = 0; k < 40; k = k + 1) { B t = new B(); measure t.q; } }", ["--shots=2"],
          {"D.q": {"1": 2}, "B.q": {"0": 80}}),
+        ("objects of a generic class that inherits its tracked field, referring to each other",
+         "class Probe { @tracked public qubit q; public constructor() -> Probe { } }\nclass Link<T> extends Probe { public Link<T> peer = null; public constructor() -> Link<T> { super(); } }\n"
+         "function main() -> void { Link<int> a = new Link<int>(); Link<int> b = new Link<int>(); a.peer = b; b.peer = a; x(a.q); measure a.q; measure b.q; a = null; b = null; "
+         "int s = 0; for (int k = 0; k < 40; k = k + 1) { Probe t = new Probe(); s = s + k; } }", ["--shots=5"], {"Link<int>.q": {"0": 5, "1": 5}, "Probe.q": {"?": 200}}),
+        ("a class derived from a generic specialisation that inherits its tracked field, self-referring",
+         "class Probe { @tracked public qubit q; public constructor() -> Probe { } }\nclass Link<T> extends Probe { public Probe peer = null; public constructor() -> Link<T> { super(); } }\n"
+         "class IntLink extends Link<int> { public constructor() -> IntLink { super(); this.peer = this; } }\n"
+         "function main() -> void { IntLink a = new IntLink(); x(a.q); measure a.q; a = null; for (int k = 0; k < 40; k = k + 1) { Probe t = new Probe(); measure t.q; } }", ["--shots=2"],
+         {"IntLink.q": {"1": 2}, "Probe.q": {"0": 80}}),
         ("every declarator of a tracked declaration", "function main() -> void { @tracked qubit a, b; x(b); measure a; measure b; }", ["--shots=3"],
          {"qubit a": {"0": 3}, "qubit b": {"1": 3}}),
         ("destroy of a tracked register is refused", "function main() -> void { @tracked qubit[2] r; measure r; destroy r; }", ["--shots=2"], ("reject", "Semantic")),
